@@ -68,12 +68,7 @@ def get_mir(target='lib', repo=REPO, overflow_checks=True, verbose=False):
         return open(out).read(), info
     t0 = time.time()
     src = os.path.join(CACHE, 'src', th)
-    if not os.path.exists(os.path.join(src, 'Cargo.toml')):
-        copy_tree(src + '.tmp%d' % os.getpid(), repo)
-        try:
-            os.rename(src + '.tmp%d' % os.getpid(), src)
-        except OSError:
-            shutil.rmtree(src + '.tmp%d' % os.getpid(), ignore_errors=True)
+    src = source_root(repo)
     env = dict(os.environ)
     env['CARGO_NET_OFFLINE'] = 'true'
     env['CARGO_TARGET_DIR'] = os.path.join(CACHE, 'mir-target')
@@ -110,28 +105,53 @@ def get_mir(target='lib', repo=REPO, overflow_checks=True, verbose=False):
 
 
 def _gc(keep):
-    for sub in ('src', 'mir'):
-        d = os.path.join(CACHE, sub)
-        if not os.path.isdir(d):
-            continue
-        ents = sorted(os.listdir(d), key=lambda e: os.path.getmtime(os.path.join(d, e)))
-        old = [e for e in ents if not e.startswith(keep)]
-        for e in old[:-6] if len(old) > 6 else []:
-            p = os.path.join(d, e)
-            if os.path.isdir(p):
-                shutil.rmtree(p, ignore_errors=True)
-            else:
+    """drop the sources and dumps of all but the 6 most recently dumped other trees (both kinds together, by hash)"""
+    md = os.path.join(CACHE, 'mir')
+    sd = os.path.join(CACHE, 'src')
+    age = {}
+    for e in (os.listdir(md) if os.path.isdir(md) else []):
+        h = e.split('-')[0]
+        age[h] = max(age.get(h, 0), os.path.getmtime(os.path.join(md, e)))
+    for e in (os.listdir(sd) if os.path.isdir(sd) else []):
+        h = e.split('.')[0]
+        age.setdefault(h, os.path.getmtime(os.path.join(sd, e)))
+    old = sorted((h for h in age if h != keep), key=lambda h: age[h])
+    for h in old[:-6] if len(old) > 6 else []:
+        for e in (os.listdir(md) if os.path.isdir(md) else []):
+            if e.startswith(h):
                 try:
-                    os.remove(p)
+                    os.remove(os.path.join(md, e))
                 except OSError:
                     pass
+        for e in (os.listdir(sd) if os.path.isdir(sd) else []):
+            if e.startswith(h):
+                shutil.rmtree(os.path.join(sd, e), ignore_errors=True)
 
 
 def source_root(repo=REPO):
+    """copy of the tree under test, keyed by its content hash; created atomically (copy aside, then rename) because
+    the worker processes of one check may all ask for it at the same moment"""
     th = tree_hash(repo)
     src = os.path.join(CACHE, 'src', th)
-    if not os.path.exists(os.path.join(src, 'Cargo.toml')):
-        copy_tree(src, repo)
+    if not os.path.exists(os.path.join(src, '.complete')):
+        tmp = src + '.tmp%d' % os.getpid()
+        copy_tree(tmp, repo)
+        open(os.path.join(tmp, '.complete'), 'w').write(th)
+        try:
+            os.rename(tmp, src)                     # atomic; fails if another worker was first
+        except OSError:
+            if os.path.exists(os.path.join(src, '.complete')):
+                shutil.rmtree(tmp, ignore_errors=True)      # somebody else's complete copy: use it
+            else:
+                # an incomplete directory left behind by a killed run: move it aside, never delete a complete one
+                try:
+                    os.rename(src, src + '.stale%d' % os.getpid())
+                    os.rename(tmp, src)
+                except OSError:
+                    shutil.rmtree(tmp, ignore_errors=True)
+                shutil.rmtree(src + '.stale%d' % os.getpid(), ignore_errors=True)
+        if not os.path.exists(os.path.join(src, '.complete')):
+            raise RuntimeError('could not create the source copy %s' % src)
     return src
 
 
